@@ -18,6 +18,14 @@ REQUIRED = [
     "DaeVerif.C04.Props.internal_selectors_decide_as_written",
     "DaeVerif.C04.Props.selector_matcher_is_first_match",
     "DaeVerif.C04.Props.node_lookup_decides_as_written",
+    "DaeVerif.C04.Props.own_node_lookup_decides_as_written",
+    "DaeVerif.C04.Props.own_subscription_lookup_decides_as_written",
+    "DaeVerif.C04.Props.shared_optimizer_history_is_cache_free",
+    "DaeVerif.C04.Props.cached_pipelines_are_the_pipelines",
+    "DaeVerif.C04.Props.datreader_pool_every_schedule",
+    "DaeVerif.C04.Props.no_router_only_without_rules",
+    "DaeVerif.C04.Props.key_congruence_needed",
+    "DaeVerif.C04.Props.keyGeo_congr",
     "DaeVerif.C04.Props.must_shorthand_preserves_meaning",
     "DaeVerif.C04.Props.alias_and_geodata_preserve_meaning",
     "DaeVerif.C04.Props.geodata_preserves_meaning",
@@ -257,7 +265,24 @@ def run(ctx):
            "c04:dnsresp.matcher_from_real_dns.New": 250, "c04sel:programs_built_by_real_NewWithOption": 120,
            "c04:sharedcache.checks": 100, "c04:lpm.constructed_hash_collisions": 3, "c04:gen.must_shorthand_outbounds": 100,
            "c04sel:programs_with_empty_rule_list": 5, "c04sel:fallback.alidns": 20, "c04sel:fallback.reject": 20,
-           "c04sel:nodeall.decision.subnode_rule": 20, "c04sel:nodeall.decision.node_rule_after_subnode_miss": 20}
+           "c04sel:nodeall.decision.subnode_rule": 20, "c04sel:nodeall.decision.node_rule_after_subnode_miss": 20,
+           # dae's own lookups through the production path (WrapNodeDialer / WrapSubscriptionDialer + selectUpstream)
+           "c04sel:own.decision.by_selector_rule": 150, "c04sel:own.decision.by_ordinary_rule_on_the_question": 50,
+           "c04sel:own.decision.by_request_fallback": 60, "c04sel:ownsub.decision.by_selector_rule": 80,
+           "c04sel:ownsub.decision.by_ordinary_rule_on_the_question": 80, "c04sel:own.decision.by_ordinary_rule_passthrough": 8,
+           "c04sel:gen.ordinary_rule_with_asis_or_reject": 25,
+           # one config.Dns object consumed by several constructors in a row
+           "c04sel:history.programs_decided_by_second_router": 25, "c04sel:history.request_matcher_of_third_consumer_dns.New": 25,
+           # the long-lived optimizer's cache: entries hit again, also under another spelling of the reference
+           "c04:sharedcache.hit_on_entry_stored_under_the_same_spelling": 60,
+           "c04:sharedcache.hit_on_entry_stored_under_another_spelling": 40,
+           "c04:gen.one_list_same_reference_twice": 60, "c04:gen.one_list_same_cache_key_in_two_spellings": 5,
+           "c04sel:parser.rejects_parameterless_forms": 7,
+           # fault injection: a geodata load failing in the first / a middle / the last rule of a list; the fault history
+           # of the long-lived optimizer (file absent -> present -> gone again)
+           "c04:fault.load_error_in_the_first_rule": 10, "c04:fault.load_error_in_a_middle_rule": 5,
+           "c04:fault.load_error_in_the_last_rule": 5, "c04:fault.load_error_with_loadable_references_in_later_rules": 5,
+           "c04:sharedcache.fault_history.runs": 1, "c04:sharedcache.fault_history.stale_entry_served_after_the_file_is_gone": 1}
     if agg["broken"] and not ctx.violations:
         ctx.say("HARNESS-BROKEN: the production constructor rejects (almost) every generated program of "
                 + ", ".join(sorted(agg["broken"])) + " although the same rules build through the rule builders; "
@@ -276,6 +301,13 @@ def run(ctx):
         ctx.say("GENERATOR-FLOOR not reached (the run proves nothing about those input classes): " + "; ".join(floor_fail))
         ctx.finish(rule="floors not reached", evaluations=agg["evaluations"], distinct=len(agg["distinct"]))
         return 2
+    if dist.get("c04sel:latent.hand_built_ast.paramless_selector_MERGED_AWAY"):
+        ctx.say("NOTE: latent (no configuration can trigger it, the parser rejects f()): a hand-built AST `sub() -> x ; sub(a) -> x` "
+                "is merged into `sub(a) -> x` by MergeAndSortRulesOptimizer (see design_notes/C04.md, goal 0)")
+    for k in ("c04sel:history.written_rules_mutated_by_a_consumer", "c04:sharedcache.result_DIFFERS_from_fresh_optimizer",
+              "c04:fault.load_error_but_real_pipeline_SUCCEEDED"):
+        if dist.get(k):
+            ctx.say(f"NOTE: {k} = {dist[k]}")
     if agg["benign_ast_drift"]:
         ctx.say(f"NOTE: {agg['benign_ast_drift']} normalised programs differ from the model's AST but have the same normal form (same meaning by theorem); not a violation")
     ctx.assumptions = [
